@@ -193,7 +193,30 @@ pub fn request_range_extension<Node>(
         }
     }
 
-    nodes_tracker.inner.extend(response.changed);
+    for (key, entry) in response.changed {
+        match nodes_tracker.inner.entry(key) {
+            std::collections::btree_map::Entry::Vacant(vacant) => {
+                vacant.insert(entry);
+            }
+            std::collections::btree_map::Entry::Occupied(mut occupied) => {
+                // We already track a node under this separator, for example a node we created
+                // whose separator happens to equal the one of a node the right worker deleted.
+                // Merge the two entries instead of dropping ours.
+                let ours = occupied.get_mut();
+                if entry.deleted.is_some() {
+                    // we can only delete a node once.
+                    assert!(ours.deleted.is_none());
+                    ours.deleted = entry.deleted;
+                }
+                if entry.inserted.is_some() || ours.inserted.is_none() {
+                    ours.next_separator = entry.next_separator;
+                }
+                if entry.inserted.is_some() {
+                    ours.inserted = entry.inserted;
+                }
+            }
+        }
+    }
 
     if let Some(new_right_neighbor) = response.new_right_neighbor {
         worker_params.right_neighbor = new_right_neighbor;
